@@ -83,3 +83,12 @@ def window_for(args, style, width):
     else:
         w = alias_factory_subclass_from_arg(F.WindowFunction, copy.deepcopy(wf))
     return w.get_impulse_response(width)
+
+
+def documented_style(comp, args):
+    """the frame style the documentation prescribes: the constructor's argument, and when that is left out,
+    "centered" for a zero-phase bank and "causal" otherwise"""
+    st = args.get("frame_style")
+    if st is None:
+        st = "centered" if comp.bank.is_zero_phase else "causal"
+    return st
